@@ -127,12 +127,12 @@ CORPUS_PROGRAMS = (
     + [[(t, k)] for k in RESERVED for t in ("keyword", "unkeyword")])
 
 
-def gen_setup(rng, n):
+def gen_setup(rng, n, gap=False):
     """the command script that builds a mailbox of about n messages; -> list of ops"""
     if n == "corpus":
         return [dict(o) for o in CORPUS_OPS], [{"words": ["body", "mx1"]} for _ in CORPUS_MSGS]
     ops = []
-    total = n + (1 if n >= 3 and rng.random() < 0.5 else 0)
+    total = n + (1 if n >= 3 and gap else 0)     # one message more, removed again: a hole in the UIDs
     metas = []
     for i in range(total):
         raw, meta = gen_message(rng, i + 1)
@@ -675,8 +675,8 @@ def explore(ctx, sizes, nprog):
     stats, forms, depths, outcome = {}, {}, {}, {"empty": 0, "all": 0, "proper": 0}
     meta_n = {"not_not": 0, "or_comm": 0, "and_inter": 0, "not_complement": 0, "or_union": 0, "uid_map": 0,
               "paren": 0, "new_old_un": 0}
-    for n in sizes:
-        ops, metas = gen_setup(rng, n)
+    for ix, n in enumerate(sizes):
+        ops, metas = gen_setup(rng, n, gap=(ix % 2 == 1))
         try:
             w = run_setup(ops)
         except Exception as e:  # noqa: BLE001
